@@ -678,7 +678,11 @@ func formatTimezoneShort(h int, m int, layout string) (string, error) {
 		return "", err
 	}
 
-	if h >= 0 {
+	if h == 0 && m < 0 {
+		// Less than an hour west of UTC: the
+		// hours carry no sign of their own.
+		tz = "-" + tz
+	} else if h >= 0 {
 		tz = "+" + tz
 	}
 
@@ -696,7 +700,7 @@ func formatTimezoneLong(h int, m int, layout string) (string, error) {
 		return "", err
 	}
 
-	if h >= 0 {
+	if h*100+m >= 0 {
 		tz = "+" + tz
 	}
 
@@ -717,7 +721,11 @@ func formatTimezoneSplit(h int, layoutH string, m int, layoutM string, separator
 
 	tz := hh + separator + mm
 
-	if h >= 0 {
+	if h == 0 && m < 0 {
+		// Less than an hour west of UTC: the
+		// hours carry no sign of their own.
+		tz = "-" + tz
+	} else if h >= 0 {
 		tz = "+" + tz
 	}
 
